@@ -261,6 +261,10 @@ public:
     size_t nrB = B.getNumberOfRows();
     size_t ncB = B.getNumberOfColumns();
     if (ncA != nrB) throw DimensionException("MatrixTools::mult(). nrows B != ncols A.", nrB, ncA);
+    if (iA.getNumberOfRows() != nrA) throw DimensionException("MatrixTools::mult(). nrows iA != nrows A.", iA.getNumberOfRows(), nrA);
+    if (iA.getNumberOfColumns() != ncA) throw DimensionException("MatrixTools::mult(). ncols iA != ncols A.", iA.getNumberOfColumns(), ncA);
+    if (iB.getNumberOfRows() != nrB) throw DimensionException("MatrixTools::mult(). nrows iB != nrows B.", iB.getNumberOfRows(), nrB);
+    if (iB.getNumberOfColumns() != ncB) throw DimensionException("MatrixTools::mult(). ncols iB != ncols B.", iB.getNumberOfColumns(), ncB);
     O.resize(nrA, ncB);
     iO.resize(nrA, ncB);
     for (size_t i = 0; i < nrA; i++)
